@@ -26,7 +26,7 @@ ASSUMPTIONS = [
     "window 0 / negative / non-integer windows are outside the quantifier (1 <= w) and not driven",
 ]
 REQUIRED = {"all": ["w_eq_1", "w_eq_N", "w_gt_N_rejected", "even_windows", "odd_windows", "delta_link_checked",
-                    "user_groups", "default_groups", "invalid_group_rejected", "histidine_windows", "default_window_calls", "numpy_int_windows"]}
+                    "user_groups", "default_groups", "invalid_group_rejected", "histidine_windows", "default_window_calls", "numpy_int_windows", "windows_ge_128_sequences", "empty_user_groups"]}
 LP = {"quick": 7, "thorough": 8}
 NRANDOM = {"quick": 500, "thorough": 3000}
 DEFAULT_GROUPS = ["ED", "RK", "RKED", "QNSTGHC", "ALMIV", "FYW", "P"]
@@ -37,6 +37,8 @@ def cases(tier, seed):
         for pat in gen.all_patterns(L):
             yield {"k": "pat", "p": M.pat_str(pat)}
     rng = gen.sub_rng(seed, ID)
+    for s in ["K" * 300, "R" * 140 + "G" * 20 + "K" * 150, "E" * 260, ("KKKKKKKKKG" * 31), ("KRKRKRE" * 45)][:3 if tier == "quick" else 5]:
+        yield {"k": "long", "s": s, "o": rng.randrange(1 << 30)}
     for i in range(NRANDOM[tier]):
         hi = 40 if tier == "quick" else (150 if i % 4 == 0 else 40)
         yield {"k": "seq", "s": gen.rand_seq(rng, hi=hi), "o": rng.randrange(1 << 30)}
@@ -100,7 +102,11 @@ def judge(case, rep, S):
         seq = case["s"]
         rng = gen.sub_rng(case["o"], ID)
         N = len(seq)
-        if N <= 40:
+        if case["k"] == "long":
+            rep.cnt("windows_ge_128_sequences")
+            windows = sorted(set([127, 128, 129, 150, 200, 255, 256, 257, N - 1, N, N + 1]))
+            windows = [w for w in windows if w <= N + 1]
+        elif N <= 40:
             windows = list(range(1, N + 4))
         else:
             windows = sorted(set([1, 2, 5, 6, N - 1, N, N + 1, N + 2, N + 3] + [rng.randint(1, N) for _ in range(6)]))
@@ -223,8 +229,11 @@ def check_composition(rep, S, obj, seq, w, rng):
         k = rng.randint(1, 5)
         groups = []
         arg = []
-        for _ in range(k):
+        for gi in range(k):
             g = rng.sample(list(M.AA), rng.randint(1, 8))
+            if gi > 0 and rng.random() < 0.1:
+                g = []                      # an empty group is a legal group: its density is 0 everywhere
+                rep.cnt("empty_user_groups")
             groups.append("".join(g))
             v = [c.lower() if rng.random() < 0.3 else c for c in g]
             arg.append(v if rng.random() < 0.6 else (tuple(v) if rng.random() < 0.5 else "".join(v)))
